@@ -10,7 +10,7 @@
 //! lost or duplicated (payload drop counters, popped ⊎ dropped = pushed), `None` / empty bulk / `peek None` only
 //! if every push that completed before the call had already been consumed, `Some` only for a push that had
 //! started, `len` between the two bounds.
-use super::mq_mpsc::{block_oracle, open_gate, park_gate, COp, Item};
+use super::mq_mpsc::{block_oracle, open_gate, park_gate, reset_drops, COp, Item, DROPS};
 use super::Built;
 use crate::rt::{call, ret, Actor, Rng};
 use may_queue::spsc::{Queue, BLOCK_SIZE};
@@ -23,6 +23,22 @@ unsafe impl<Q> Sync for Cell<Q> {}
 unsafe impl<Q> Send for Cell<Q> {}
 
 pub fn build(rng: &mut Rng, tier: u32) -> Built {
+    // every seventh scenario of the random family is a ring scenario (see `build_ring`)
+    let ring = rng.chance(150);
+    build_kind(rng, tier, ring, "mq_spsc")
+}
+
+/// family `mq_spsc_ring` (small, meant for systematic exploration `detx`): the queue runs on a ring of two blocks.
+/// The producer pushes 2·B−1−j values (blocks 0 and 1, block cache exhausted: `first == last_head`), then – racing
+/// with the consumer – the push that fills block 1 (it calls `alloc_node`, which re-reads `head.block` and recycles
+/// block 0 if the consumer has released it) and one or two more (which overwrite slots of the recycled block);
+/// the consumer `bulk_pop`s whole blocks: its first bulk_pop ends exactly on the block boundary and hands block 0
+/// over with its `head.block` store. The FIFO / loss / duplicate oracles are those of `mq_spsc`.
+pub fn build_ring(rng: &mut Rng, tier: u32) -> Built {
+    build_kind(rng, tier, true, "mq_spsc_ring")
+}
+
+fn build_kind(rng: &mut Rng, tier: u32, ring: bool, family: &'static str) -> Built {
     let b = BLOCK_SIZE;
     let max_ops = if tier > 0 { 10 } else { 6 };
     // where the contended phase starts relative to the block boundary
@@ -63,6 +79,16 @@ pub fn build(rng: &mut Rng, tier: u32) -> Built {
             _ => COp::IsEmpty,
         })
         .collect();
+    // ring kind: 2B-1-j values before the race, j+2 or j+3 pushes in it, the consumer takes whole blocks
+    let ringj = rng.below(2) as usize;
+    let ringk = 2 + rng.below(2) as usize;
+    let ring_more = family == "mq_spsc" && rng.chance(500);
+    let (fill, keep, wait_drain, npush, cops) = if ring {
+        let cops = if ring_more { vec![COp::Bulk, COp::Bulk, COp::Pop] } else { vec![COp::Bulk] };
+        (2 * b - 1 - ringj, 2 * b - 1 - ringj, false, ringj + ringk, cops)
+    } else {
+        (fill, keep, wait_drain, npush, cops)
+    };
     let desc: String = cops
         .iter()
         .map(|o| match o {
@@ -75,7 +101,7 @@ pub fn build(rng: &mut Rng, tier: u32) -> Built {
         })
         .collect();
     let total = fill + npush;
-    let drops: Arc<Vec<AtomicUsize>> = Arc::new((0..total).map(|_| AtomicUsize::new(0)).collect());
+    reset_drops();
     let cell: Arc<Cell<Queue<Item>>> = Arc::new(Cell(UnsafeCell::new(None)));
     // number of pushes started / completed (maintained by the producer around each call)
     let started = Arc::new(AtomicUsize::new(0));
@@ -208,7 +234,7 @@ pub fn build(rng: &mut Rng, tier: u32) -> Built {
         }));
     }
     {
-        let (cell, drops, started, completed) = (cell.clone(), drops.clone(), started.clone(), completed.clone());
+        let (cell, started, completed) = (cell.clone(), started.clone(), completed.clone());
         actors.push(Box::new(move || {
             park_gate(gate_p);
             let q: &Queue<Item> = unsafe { (*cell.0.get()).as_ref().unwrap() };
@@ -221,7 +247,7 @@ pub fn build(rng: &mut Rng, tier: u32) -> Built {
                 }
                 started.fetch_add(1, Ordering::SeqCst);
                 call("mq.push", id as u64, 0);
-                q.push(Item { id, drops: drops.clone() });
+                q.push(Item { id });
                 ret("mq.push", 0);
                 completed.fetch_add(1, Ordering::SeqCst);
             }
@@ -233,8 +259,8 @@ pub fn build(rng: &mut Rng, tier: u32) -> Built {
     }
     Built {
         header: format!(
-            "family=mq_spsc actors=2 B={} fill={} keep={} pushes={} wait={} ops={}",
-            b, fill, keep, npush, wait_drain as u8, desc
+            "family={} actors=2 B={} fill={} keep={} pushes={} wait={} ops={}",
+            family, b, fill, keep, npush, wait_drain as u8, desc
         ),
         names: vec!["t0".into(), "t1".into()],
         actors,
@@ -253,7 +279,7 @@ pub fn build(rng: &mut Rng, tier: u32) -> Built {
                 }
             }
             if complete {
-                for (x, d) in drops.iter().enumerate() {
+                for (x, d) in DROPS.iter().enumerate().take(total) {
                     let d = d.load(Ordering::SeqCst);
                     if d != 1 {
                         v.push(format!("payload {x} dropped {d} times (lost or duplicated)"));
